@@ -258,6 +258,9 @@ def enum_variant_of_operand(ctx, body, operand):
     if operand['k'] == 'const':
         v = operand['v']
         pb = ctx.F.bodies.get(v)
+        if pb is None:
+            m = re.search(r'::promoted\[(\d+)\]$', v)
+            if m: pb = ctx.F.bodies.get('%s::promoted[%s]' % (body.name, m.group(1)))
         if pb is not None:
             for bi, st in pb.stmts():
                 if st['rv']['k'] == 'agg' and '::' in st['rv']['adt'] and not st['rv']['ops']:
